@@ -17,6 +17,7 @@ CLASSES = {
     "capital": dict(capital=True, splits=True, n_sec=(1, 2)),
     "tiny": dict(capital=False, splits=True, n_sec=(1, 2), qty_dp=6, steps=(6, 16)),
     "manylots": dict(capital=True, splits=True, n_sec=(1, 2), steps=(10, 24), templates_p=0.6),
+    "split_on_trade_date": dict(capital=False, splits=True, strict_splits=False, n_sec=(1, 2), steps=(6, 14), templates_p=0.3),
 }
 
 
@@ -158,6 +159,59 @@ def snapshot_invariants(snaps, rep, days, cnt):
     return v
 
 
+def oracle_split_day(txs, obs, cnt, sets, feats):
+    """Labelled class: SPLIT/UNSPLIT may share a date with trades of its security. Whether the split applies before or
+    after that day's trades is fixed by no property, so nothing here consults the statute model: the clauses only
+    demand that the tool's own views of a holding agree with each other - the report's legs with its disposal
+    quantity, the matcher's net position (hook H2) with its Section 104 pool whenever nothing is claimed from future
+    acquisitions, and the reported closing holding with the final net position."""
+    v = []
+    if "ok" not in obs:
+        cnt["not_accepted"] += 1
+        return v
+    if not lc.split_trade_same_day(txs):
+        return v
+    cnt["split_day_ledgers"] += 1
+    rep = lc.parse_report(obs["ok"]["report"])
+    # F15 (open): the 30-day look-ahead applies a same-date split iff its line precedes the trade's line, the day loop
+    # always applies it after the trades; the two then disagree about quantities. Divergences in a security that has a
+    # 30-day leg and a split on one of its trade dates carry that explanation in the signature; others do not.
+    split_days = {(t["ticker"], t["date"]) for t in txs if t["kind"] in ("SPLIT", "UNSPLIT")}
+    trade_days = {(t["ticker"], t["date"]) for t in txs if t["kind"] in ("BUY", "SELL")}
+    bnb = {dd["ticker"] for dd in lc.all_disposals(rep) for l in dd["legs"] if l["rule"] == "BedAndBreakfast"}
+    f15 = {tk for (tk, d_) in split_days & trade_days if tk in bnb}
+
+    def sfx(tk):
+        return ":30-day-leg-in-a-security-split-on-a-trade-date" if tk in f15 else ""
+    for dd in lc.all_disposals(rep):
+        legs_q = sum((l["qty"] for l in dd["legs"]), ZERO)
+        if abs(legs_q - dd["qty"]) > tol(dd["qty"]):
+            v.append({"clause": "legs-vs-disposal-quantity", "detail": f"{dd['ticker']} {dd['date']}: legs sum {legs_q}, disposal {dd['qty']}"})
+    last_pos = {}
+    for sn in obs.get("snapshots", []):
+        if sn.get("phase") != "day":
+            continue
+        cnt["snapshots_inspected"] += 1
+        claimed_tk = {fc[2] for fc in sn.get("future_consumption", []) if len(fc) >= 4 and fr(fc[1]) != 0}
+        for tk, q in sn.get("positions", []):
+            last_pos[tk] = fr(q)
+            if tk in claimed_tk:
+                continue
+            pool = sn["pools"].get(tk)
+            pq = fr(pool["quantity"]) if pool else ZERO
+            cnt["split_day_position_checks"] += 1
+            if abs(fr(q) - pq) > tol(pq) * 10 ** 6:
+                v.append({"clause": "hook-position-vs-pool", "signature": "hook-position-vs-pool" + sfx(tk),
+                          "detail": f"{tk} end of {sn['date']}: net position {float(fr(q))!r} != Section 104 pool {float(pq)!r} "
+                                    f"(nothing claimed from future acquisitions)"})
+    for tk, pos in last_pos.items():
+        got = rep["holdings"].get(tk, (ZERO, ZERO))[0]
+        if abs(got - pos) > tol(pos) * 10 ** 6:
+            v.append({"clause": "closing-holding-vs-net-position", "signature": "closing-holding-vs-net-position" + sfx(tk),
+                      "detail": f"{tk}: reported holding {float(got)!r}, matcher's final net position {float(pos)!r}"})
+    return v
+
+
 def sample_fn(txs, o):
     if "ok" not in o:
         return None
@@ -169,20 +223,23 @@ def run_shard(desc):
     rng = rng_for(PROP, desc["seed"], desc["cls"], desc["shard"])
     opts = Opts(**CLASSES[desc["cls"]])
     cases = [gen_ledger(rng, opts) for _ in range(desc["n"])]
-    return lc.run_ledger_cases(cases, oracle, record=True, sample_fn=sample_fn)
+    return lc.run_ledger_cases(cases, oracle_split_day if desc["cls"] == "split_on_trade_date" else oracle,
+                               record=True, sample_fn=sample_fn)
 
 
 def replay(case):
     from ..probe import probe
     o = probe().one(lc.calc_case(case["txs"], record=True))
-    vs = oracle(case["txs"], o, Counter(), {}, set())
+    vs = (oracle_split_day if case.get("cls") == "split_on_trade_date" or lc.split_trade_same_day(case["txs"]) else oracle)(
+        case["txs"], o, Counter(), {}, set())
     for x in vs:
         x.setdefault("signature", x["clause"])
     return vs, o
 
 
-THRESHOLDS = {"multi_rule_disposals": 1000, "acq_days_with_2plus_claimants": 300, "snapshots_inspected": 5000, "hook_position_checks": 5000,
+THRESHOLDS = {"split_day_position_checks": 2000, "multi_rule_disposals": 1000, "acq_days_with_2plus_claimants": 300, "snapshots_inspected": 5000, "hook_position_checks": 5000,
               "legs_across_split": 100}
 RULE = ("seeded shape-directed ledgers in five classes (plain, splits, capital events, tiny quantities, many "
         "same-day lots); conservation equations between input lines and reported legs/holdings plus H2 snapshot "
-        "invariants at every processed day; non-trivial = accepted ledger with >=1 disposal, distinct by ledger hash")
+        "invariants at every processed day; plus a labelled class with SPLIT/UNSPLIT on trade dates judged only by the "
+        "tool's own views agreeing with each other (net position vs pool vs reported holding); non-trivial = accepted ledger with >=1 disposal, distinct by ledger hash")
